@@ -5,6 +5,8 @@ from hypothesis import strategies as st
 from hypothesis.stateful import RuleBasedStateMachine, rule
 
 from vf import histops as H
+from vf import spec as S
+import numpy as np
 from vf.fingerprint import fp
 from vf.runner import Mismatch, Relation
 
@@ -50,7 +52,7 @@ IO_OPS = ('serialize', 'serialize_one', 'parse', 'parse_table', 'write_read')
 
 def op_strategy():
     # I/O operations (where module state and hashing can leak) weigh double
-    return st.tuples(st.sampled_from(OPS + list(IO_OPS)), st.integers(0, 13),
+    return st.tuples(st.sampled_from(OPS + list(IO_OPS)), st.integers(0, 23),
                      st.integers(0, 5), st.integers(0, 5)).map(list)
 
 
@@ -66,6 +68,34 @@ def variant_strategy():
             'unit': st.sampled_from(['deg', 'rad', 'arcmin', 'hourangle'])}))
 
 
+_CANARY_WCS = []
+
+
+def _canaries():
+    """Results of a few fixed operations on freshly built objects."""
+    import astropy.units as u
+    import warnings
+    from astropy.coordinates import SkyCoord
+    import regions as R
+    if not _CANARY_WCS:
+        _CANARY_WCS.append(S.build_wcs(H.WCS_SPECS[1]))
+    w = _CANARY_WCS[0]
+    sc = SkyCoord(30.002 * u.deg, 10.001 * u.deg, frame='fk5')
+    ell = R.EllipseSkyRegion(sc, 30 * u.arcsec, 12 * u.arcsec, 25 * u.deg)
+    pix = R.RectanglePixelRegion(R.PixCoord(9.5, 12.25), 7.0, 3.0, 20 * u.deg,
+                                 meta=R.RegionMeta({'text': 'canary'}))
+    with warnings.catch_warnings():
+        warnings.simplefilter('ignore')
+        out = [ell.to_pixel(w), pix.to_sky(w),
+               R.Regions([pix, ell.to_pixel(w)]).serialize(format='ds9'),
+               R.Regions([ell]).serialize(format='crtf'),
+               list(R.Regions.parse('fk5\nellipse(2:00:00.5,+10:00:03,10",5",30)'
+                                    ' # text={c}\n', format='ds9')),
+               np.asarray(pix.to_mask('center').data),
+               bool(ell.contains(sc, w))]
+    return out
+
+
 class Model:
     def __init__(self, ctx, variant=None):
         self.ctx = ctx
@@ -75,6 +105,11 @@ class Model:
         self.tables = H.module_tables()
         self.memo = {}
         self.history = []
+        # canaries: a fixed set of operations on FRESH objects (not the pool's)
+        # whose results, taken before the history starts, must come out the
+        # same after every step - "after any other sequence of library calls
+        # in the same process"
+        self.canary = fp(_canaries())
 
     def _flat(self):
         p = self.pool
@@ -97,6 +132,13 @@ class Model:
             what = _first_diff(now, self.pool_fp)
             self.pool_fp = now
             ctx.fail(f'{op[0]} | an operation modified an object of the pool',
+                     what)
+        can = fp(_canaries())
+        if can != self.canary:
+            what = _first_diff(can, self.canary)
+            self.canary = can
+            ctx.fail(f'{op[0]} | a fixed operation on fresh objects gives a '
+                     'different result after this operation (call history)',
                      what)
         t = H.module_tables()
         if t != self.tables:
@@ -221,7 +263,7 @@ class Fresh(Relation):
                 st.tuples(st.sampled_from(['serialize', 'serialize_one']),
                           st.sampled_from([2, 10, 11, 12, 13, 14, 0, 1, 3]),
                           st.integers(0, 5), st.integers(0, 5)).map(list),
-                st.tuples(st.sampled_from(list(IO_OPS)), st.integers(0, 13),
+                st.tuples(st.sampled_from(list(IO_OPS)), st.integers(0, 23),
                           st.integers(0, 5), st.integers(0, 5)).map(list),
                 op_strategy()).map(list),
             'variant': variant_strategy(),
